@@ -7,6 +7,7 @@ CSVWorkloadWriter and read back through CSVWorkloadReader; the pipelines are com
 structurally.  Reader -> writer: a writer-format file is read and written again; every row
 must be reproduced apart from the arrival column.  Malformed files (one broken rule per file)
 must raise instead of loading."""
+import copy
 import io
 
 from ..core import rng_for
@@ -74,6 +75,29 @@ def hash_twins_case(rng):
     return {"kind": "roundtrip", "tps": 10, "arrivals": arrivals, "ticks": j + 3, "_hash_twins": True}
 
 
+def near_twins_case(rng):
+    """Rows of ONE file whose numbers agree to 6..15 significant digits and differ beyond (adjacent floats, a relative
+    1e-7 .. 1e-15 apart, large magnitudes with different fractions): every row has to come back with its own values -
+    nothing may be keyed, cached or de-duplicated by a rounded or formatted form of a number."""
+    import math
+    arrivals = {}
+    j = 0
+    bases = [1234567.25, 0.1234567891, 40.00001, 37.5, 1e-3, 9.999999, 2.0 ** 40 + 0.5, rng.uniform(0.1, 100.0), rng.uniform(1e3, 1e9)]
+    for b in bases:
+        variants = [b, math.nextafter(b, math.inf), b * (1 + 1e-7), b * (1 + 1e-9), b * (1 + 1e-12), b + 0.5 if b > 1e6 else b * (1 + 1e-15), b]
+        for field in ("cpu", "read", "mem"):
+            ops = []
+            for v in variants:
+                seg = {"cpu": 2.0, "law": rng.choice(["sqrt", "const"]), "mem": 4.0 if field != "mem" else None, "read": 8.0}
+                seg[field] = v
+                ops.append({"parents": [], "segs": [seg]})
+            # the same near-twins again in another pipeline of the same file (cache spanning pipelines)
+            arrivals.setdefault(str(j), []).append({"pid": f"nt{j}", "prio": rng.choice(gen.PRIOS), "ops": ops})
+            arrivals.setdefault(str(j + 1), []).append({"pid": f"nu{j}", "prio": rng.choice(gen.PRIOS), "ops": list(reversed(copy.deepcopy(ops)))})
+            j += 2
+    return {"kind": "roundtrip", "tps": 10, "arrivals": arrivals, "ticks": j + 3, "_near_twins": True}
+
+
 def big_file_case(rng, npipes):
     arrivals = {}
     for j in range(npipes):
@@ -100,6 +124,7 @@ def big_file_case(rng, npipes):
 def cases(tier, seed, shard, nshards):
     rng = rng_for(ID, seed, shard)
     yield hash_twins_case(rng)
+    yield near_twins_case(rng)
     if tier == "thorough" or shard < 3:
         yield big_file_case(rng, 5000 if tier == "quick" else 20000)
     for i in range(N[tier]):
